@@ -60,7 +60,7 @@ def main(argv):
         print(f"no harness for {prop}: {e}")
         return 2
     evidence_path = cm.EVIDENCE / f"{prop}.json"
-    cm.EVIDENCE.mkdir(exist_ok=True)
+    cm.EVIDENCE.mkdir(parents=True, exist_ok=True)
 
     # ---- 1. build model + proofs (+ generated obligations) ------------------------------------------------------
     gen_info = None
